@@ -3,8 +3,8 @@
 import sys, json, os, shutil, glob
 ID, n, detected = sys.argv[1], sys.argv[2], sys.argv[3]
 note = sys.argv[4] if len(sys.argv) > 4 else ""
-src = f"/tmp/seeds/out_{ID}/{n}"
-dst = f"/verif/seeded/{ID}-{n}"
+src = f"/tmp/seeds/{os.environ.get('SEEDOUT','out')}_{ID}/{n}"
+dst = f"/verif/seeded/{ID}-{os.environ.get('SEEDNAME', n)}"
 os.makedirs(dst, exist_ok=True)
 shutil.copy(f"{src}/patch.diff", dst)
 for f in glob.glob(f"{src}/demo*"):
